@@ -772,11 +772,21 @@ def _wrappers(ctx) -> None:
     it = interp_of(prog, f)
     rets = [e for e in it.events if e.kind == "return" and e.depth == 0]
     problems = []
-    sup = ("call", ("attr", ("call", ("name", "super"), (), ()), "__add__"), (OTHER,), ())
-    fallback = [e for e in rets if e.term == sup]
+    def is_other(t) -> bool:
+        """the other operand, possibly normalised: other / Vector(other) / (Vector(other) if <plain sequence> else other)"""
+        if t == OTHER:
+            return True
+        if t[0] == "call" and t[1] == ("name", "Vector") and len(t[2]) == 1 and not t[3]:
+            return is_other(t[2][0])
+        if t[0] == "ifexp":
+            return is_other(t[2]) and is_other(t[3])
+        return False
+    fallback = [e for e in rets if e.term[0] == "call" and e.term[1] == ("attr", ("call", ("name", "super"), (), ()), "__add__")
+                and len(e.term[2]) == 1 and is_other(e.term[2][0]) and not e.term[3]]
     if not fallback or it.falls_through:
         problems.append("no fallback to super().__add__(other)")
-    res = _elementwise_over_self(prog, f)
+    returned = {lf for e in rets for lf in __import__("serifscan.sites2", fromlist=["leaves"]).leaves(e.term)}
+    res = [r for r in _elementwise_over_self(prog, f) if r[0].call in returned]
     if len(res) + len(fallback) != len(rets):
         problems.append("a result is neither day arithmetic over the elements nor the generic kernel")
     for s_, lp, v, pr in res:
@@ -787,13 +797,16 @@ def _wrappers(ctx) -> None:
         und = ("attr", SELF, "_underlying")
         if lp.domain is not None and lp.domain[0] == "tuple":
             doms = tuple(lp.domain[1])
-            if len(doms) != 2 or doms[0] not in (SELF, und) or doms[1] not in (OTHER, ("attr", OTHER, "_underlying")):
+            if len(doms) != 2 or doms[0] not in (SELF, und) or not (is_other(doms[1]) or (doms[1][0] == "attr" and doms[1][2] == "_underlying"
+                                                                                  and is_other(doms[1][1]))):
                 problems.append(f"pairs `{show(lp.iter, s_.it)[:50]}`, expected zip(self, other)")
                 continue
             x, y = ("elem", doms[0], L), ("elem", doms[1], L)
             xs = (x, y)
         elif lp.iter in (SELF, und):
-            x, y = ("elem", lp.iter, L), OTHER
+            x = ("elem", lp.iter, L)
+            ys = [t for t in __import__("serifscan.symx", fromlist=["subterms"]).subterms(v) if is_other(t) and t[0] != "call"]
+            y = OTHER if not ys else max(ys, key=lambda t: len(repr(t)))
             xs = (x,)
         else:
             problems.append(f"iterates `{show(lp.iter, s_.it)[:40]}`, not self")
@@ -803,6 +816,21 @@ def _wrappers(ctx) -> None:
             problems.append(f"day arithmetic `{show(v, s_.it)[:80]}` is not date.fromordinal(s.toordinal() + n) with None kept")
     ctx.ob("e.wrappers", f, "date-add", not problems, "dates + int adds days; anything else uses the generic kernel", f.node,
            message="_Date.__add__: " + "; ".join(problems[:2]))
+    # a PLAIN SEQUENCE of day counts must reach the day arithmetic too (the statement's operand forms: vector, scalar, plain
+    # sequence): otherwise it falls into the generic kernel, where date + int is a TypeError and the fallback returns operand pairs
+    from ..symx import subterms as _st
+    seq_ok = False
+    for s_, lp, v, pr in res:
+        if lp is None or lp.domain is None or lp.domain[0] != "tuple":
+            continue
+        for d in lp.domain[1]:
+            for t in _st(d):
+                if t[0] == "ifexp" and t[2][0] == "call" and t[2][1] == ("name", "Vector") and t[2][2] == (OTHER,) and t[3] == OTHER \
+                        and any(x[0] == "call" and x[1] == ("name", "isinstance") and x[2][0] == OTHER for x in _st(t[1])):
+                    seq_ok = True
+    ctx.ob("e.wrappers", f, "date-add-sequence", seq_ok, "a plain sequence of day counts is normalised to a vector of them", f.node,
+           message="_Date.__add__: a plain list / tuple of day counts does not reach the day arithmetic (only an int vector and an int scalar "
+                   "do): `dates + [1, 2]` falls through to the generic kernel and returns (date, int) pairs")
 
 
 def _resolve(ctx) -> None:
@@ -836,6 +864,9 @@ def _resolve(ctx) -> None:
 
 _V, _T = "vector", "table"
 MUTANTS = [
+    dict(id="date-add-ignores-plain-sequences", module="vector",
+         old="		if isinstance(other, (list, tuple)) and other and all(y is None or (isinstance(y, int) and not isinstance(y, bool)) for y in other):\n			# a plain sequence of day counts is handled like a vector of them\n			other = Vector(other)\n",
+         new="", rules=["e.wrappers"], desc="the defect repaired by fix 3c6ed23"),
     dict(id="rmul-forwards-to-mul", module="vector", old="		return self._elementwise_operation(other, _reverse_mul, '__rmul__', '*')",
          new="		return self.__mul__(other)", rules=["a.dispatch"], desc="the defect repaired by fix 6ecf214"),
     dict(id="rfloordiv-forward-operator", module=_V, old="		return self._elementwise_operation(other, _reverse_floordiv, '__rfloordiv__', '//')",
